@@ -44,6 +44,8 @@ package analysis
 //@   requires [state] resOk(res)
 //@   requires [node] exprOk(expr)
 //@   ensures [nil-any] expr == nil ==> result == TypeAny
+//@   ensures [literal-types] {C17} (typeis(expr, *parser.MonetaryLiteral) ==> result == TypeMonetary) && (typeis(expr, *parser.AccountLiteral) ==> result == TypeAccount) && (typeis(expr, *parser.RatioLiteral) ==> result == TypePortion) && (typeis(expr, *parser.AssetLiteral) ==> result == TypeAsset) && (typeis(expr, *parser.NumberLiteral) ==> result == TypeNumber) && (typeis(expr, *parser.StringLiteral) ==> result == TypeString)
+//@   ensures [declared-variable-type] {C17} typeis(expr, *parser.Variable) && has(res.declaredVars, as(expr, *parser.Variable).Name) && knownType(res.declaredVars[as(expr, *parser.Variable).Name].Type.Name) ==> result == res.declaredVars[as(expr, *parser.Variable).Name].Type.Name
 //@   modifies nothing
 
 //@ func (*CheckResult).checkExpression
@@ -181,7 +183,7 @@ package analysis
 //@     invariant [earlier-reports-kept] {C16} forall(i, 0, atloop(len(res.Diagnostics)), res.Diagnostics[i] == atloop(res.Diagnostics[i]))
 
 //@ func newCheckResult
-//@   ensures [state] result.emptiedAccount != nil && result.declaredVars != nil && result.unusedVars != nil && result.varResolution != nil && result.fnCallResolution != nil && len(result.Diagnostics) == 0 && fresh(ref(result.emptiedAccount)) && fresh(ref(result.declaredVars)) && fresh(ref(result.unusedVars)) && fresh(ref(result.varResolution)) && fresh(ref(result.fnCallResolution)) && result.Program == program && forallstr(k, !has(result.declaredVars, k)) && forallref(f, !has(result.fnCallResolution, f)) && forallref(v, !has(result.varResolution, v))
+//@   ensures [state] result.emptiedAccount != nil && result.declaredVars != nil && result.unusedVars != nil && result.varResolution != nil && result.fnCallResolution != nil && len(result.Diagnostics) == 0 && fresh(ref(result.emptiedAccount)) && fresh(ref(result.declaredVars)) && fresh(ref(result.unusedVars)) && fresh(ref(result.varResolution)) && fresh(ref(result.fnCallResolution)) && result.Program == program && forallstr(k, !has(result.declaredVars, k)) && forallref(f, !has(result.fnCallResolution, f)) && forallref(v, !has(result.varResolution, v)) && forallstr(k, !has(result.unusedVars, k))
 //@   modifies nothing
 
 //@ func CheckProgram
